@@ -13,7 +13,12 @@ Implementation functions driven (real code from /repo/src):
   and on objects whose per-frame DimensionIndexValues were re-encoded the way other encoders write them
   (kind 'foreign'); the same object obtained in memory / segread / segread(lazy_frame_retrieval=True) /
   from_dataset, with the decoded pixel_array cache warmed or not, whole HISTORIES of reads on one object with
-  the returned arrays overwritten by the caller in between (kind 'history').
+  the returned arrays overwritten by the caller in between (kind 'history');
+  get_pixels_by_dimension_index_values with explicit dimension_index_pointers: any selection of the plane
+  dimensions (Row/Column position, X/Y/Z offset; ImagePositionPatient) in any order, a dimension named twice, None,
+  the segment dimension / a tag that is no dimension / rows of the wrong length, selections that do not identify
+  the frames - and HISTORIES of such reads on one sparse object in which the same selection recurs in different
+  orders (kind 'pointers', the dimidx / history / malformed / foreign kinds, the shipped sparse tiled files).
 Model: coq/theories/C02_Model.v; theorems: C02_Props.v.
 
 A case = one stored segmentation (synthetic, built through the real
@@ -48,7 +53,12 @@ ORACLE_PREMISES = [
     'numpy type promotion inside the combine loop (uint8 frame * dtype scalar, np.maximum) does not lose values '
     'that fit the output dtype',
     'reads are functions of the stored object (no aliasing between the cached pixel array, the frames handed to the '
-    'combine loop and the arrays returned to the caller): outside the model, exercised by the history cases',
+    'combine loop and the arrays returned to the caller; no per-object state that makes the answer to a read by '
+    'dimension index values depend on the pointer lists of earlier reads): outside the model, exercised by the '
+    'history and pointers cases',
+    'the DimensionIndexValues along ALL plane dimensions given to the model and the oracle are predicted (ranks of '
+    'the occurring tile rows / columns, X and Y falling with them, Z constant; re-encoded values) and verified '
+    'against the object actually built; for the shipped files they are read with pydicom',
 ]
 MODELLED = ('seg/sop.py: _get_pixels_by_seg_frame (dtype choice and capacity check, LABELMAP need_remap / '
             'intermediate dtype / remap table / one-hot, BINARY+FRACTIONAL combine loop with overlap test and maximum, '
@@ -59,9 +69,12 @@ MODELLED = ('seg/sop.py: _get_pixels_by_seg_frame (dtype choice and capacity che
             '_combine_segments; the (plane, segment) uniqueness guard on objects re-read with from_dataset; '
             'image.py: _prepare_channel_tables and the stack join (as comprehension), _get_pixels_by_frame (as gather), '
             'the index-column / value-column choice of _normalize_dimension_queries with the use_indices flags each '
-            'entry point passes to _iterate_indices_for_stack (objects with foreign DimensionIndexValues)')
+            'entry point passes to _iterate_indices_for_stack (objects with foreign DimensionIndexValues); '
+            'get_pixels_by_dimension_index_values with explicit dimension_index_pointers: pointer checks, row-length '
+            'check, the existence check of _get_unique_dim_index_values (SELECT DISTINCT over the pointed columns), '
+            'the uniqueness check and the multi-column join (read_dim)')
 STRATA = ['instance', 'frame', 'dimidx', 'volume', 'tpm', 'subsets', 'malformed', 'fixture', 'search', 'tracking',
-          'ctor', 'describe', 'dupframe', 'foreign', 'history']
+          'ctor', 'describe', 'dupframe', 'foreign', 'history', 'pointers']
 NOT_EXECUTED = ['palette colour / ICC output of LABELMAP (apply_palette_color_lut)']
 RULE = ('objects: BINARY/FRACTIONAL/LABELMAP, 1-4 segments (LABELMAP also sparse numbers from '
         '{1,2,5,7,200,255,256,300,1000,2048,65535}), 1-5 planes (CT series) or 1-9 tiles (tiled slide image), frames of '
@@ -70,7 +83,11 @@ RULE = ('objects: BINARY/FRACTIONAL/LABELMAP, 1-4 segments (LABELMAP also sparse
         'DimensionIndexValues re-encoded (segment index ranked over the occurring numbers / permuted / shifted, plane '
         'index ranked / with gaps / reversed) with described-but-empty segments, all entry points; history: 8-12 reads '
         'of mixed entry points on ONE object, cache viewed at the start or mid-way, results overwritten by the caller, '
-        'stored state re-read at the end; reads: random ordered subsets x 16 option combinations x 13 dtypes x repeated / '
+        'stored state re-read at the end; pointers: 9-11 reads by dimension index values on ONE sparse (tiles / slices '
+        'not stored) native or re-encoded object with explicit dimension_index_pointers - one selection of 2-5 plane '
+        'dimensions in a fresh random order for most reads, other selections (also ambiguous ones, a dimension twice, '
+        'None) in between, 75 % without assert_missing_frames_are_empty, stored / absent / mixed positions, two reads '
+        'violating a pointer or row guard; the same on the shipped sparse tiled files (segread, lazy or not); reads: random ordered subsets x 16 option combinations x 13 dtypes x repeated / '
         'permuted / omitted / unknown planes; subsets: ALL non-empty ordered subsets of the segment numbers; '
         'malformed: every guard violated; fixtures: shipped seg_image_*.dcm.  non-trivial = at least one non-zero '
         'output value or a refusal; distinct by case hash')
@@ -267,6 +284,9 @@ def gen_read(rng, o, entry, req=None, opts=None):
             planes.insert(rng.randint(0, len(planes)), rng.choice(extra))
         r['planes'] = planes
         r['am'] = rng.random() < 0.5
+        if entry == 'dimidx' and rng.random() < 0.6:
+            # explicit dimension_index_pointers: a selection of the plane dimensions in some order
+            r['ptrs'] = gen_ptrs(rng, o)
     elif entry == 'volume':
         r['planes'] = volume_keys(o)
         r['am'] = rng.random() < 0.8       # allow_missing_positions
@@ -292,6 +312,8 @@ def applicable_bad(o, entry):
     kinds = ['empty_req', 'unknown_seg', 'small_dtype', 'other_dtype', 'bool_combine']
     if entry in ('instance', 'frame', 'dimidx'):
         kinds += ['empty_keys', 'unknown_key']
+    if entry == 'dimidx':
+        kinds += ['ptr_empty', 'ptr_seg', 'ptr_bogus', 'row_short', 'row_long']
     if entry == 'frame':
         kinds.append('frame0')
     if entry == 'volume':
@@ -347,6 +369,10 @@ def gen_malformed(rng, o, entry, idx=None):
         r['combine'], r['dtype'] = True, 'bool'
     elif bad == 'strict_volume' and entry == 'volume':
         r['am'] = False
+    elif bad in ('ptr_empty', 'ptr_seg', 'ptr_bogus', 'row_short', 'row_long'):
+        if 'ptrs' not in r:
+            r['ptrs'] = gen_ptrs(rng, o, ambiguous=0)
+        bad_pointers(rng, r, bad)
     if r['combine'] and len(set(r['req'])) < len(r['req']):
         # repeated numbers are only meaningful for stacked reads (the property speaks of ordered subsets; a
         # combined read of a BINARY object with a repeated number dies with sqlite3.IntegrityError)
@@ -464,6 +490,12 @@ def gen_cases(rng, tier):
         cases.append(gen_foreign(rng, i))
     for i in range({'quick': 12, 'thorough': 160, 'search': 60}[tier]):
         cases.append(gen_history(rng, i))
+    for i in range({'quick': 14, 'thorough': 180, 'search': 60}[tier]):
+        cases.append(gen_pointers(rng, i))
+    for name in FIXTURES:
+        if name.startswith('seg_image_sm'):
+            for _ in range({'quick': 1, 'thorough': 4, 'search': 2}[tier]):
+                cases.append(gen_fixture_pointers(rng, name))
     # the model is evaluated in shards of consecutive cases: put the cheap kinds first so that the expensive
     # read cases are spread over the shards (stable sort, the draws above are unaffected)
     light = ('search', 'tracking', 'describe', 'ctor', 'dupframe')
@@ -542,8 +574,13 @@ def gen_history(rng, i):
     o['warm'] = i % 3 != 2
     entries = ['instance', 'instance', 'dimidx', 'volume'] if src == 'ct' else ['frame', 'frame', 'tpm', 'dimidx', 'volume']
     reads = []
+    main = list(rng.choice(SM_PTR_SETS[:7])) if src == 'sm' else ['ipp']
     for j in range(rng.randint(6, 8)):
         r = gen_read(rng, o, rng.choice(entries))
+        if r['entry'] == 'dimidx' and rng.random() < 0.7:
+            # the same selection of dimension index pointers, in another order each time
+            r['ptrs'] = rng.sample(main, len(main))
+            r['am'] = rng.random() < 0.3
         if rng.random() < 0.15:
             r['touch'] = True           # the caller views seg.pixel_array just before this read
         if rng.random() < 0.5:
@@ -646,6 +683,204 @@ def dim_code(row):
     return row[0] if len(row) == 1 else row[0] * 1000 + row[1]
 
 
+# ----------------------------------------------------------------------------
+# explicit dimension_index_pointers (reads that carry r['ptrs'])
+# ----------------------------------------------------------------------------
+# A read by dimension index values may name ANY non-empty selection of the plane dimensions of the object, in ANY
+# order (r['ptrs']: list of dimension names, None = dimension_index_pointers=None).  The rows of values handed to
+# the library are derived from the requested planes and the pointer list, so the same question can be asked with
+# the pointers in every order - and, on one object, in different orders one after the other.
+DIM_KW = {'row': 'RowPositionInTotalImagePixelMatrix', 'col': 'ColumnPositionInTotalImagePixelMatrix',
+          'x': 'XOffsetInSlideCoordinateSystem', 'y': 'YOffsetInSlideCoordinateSystem',
+          'z': 'ZOffsetInSlideCoordinateSystem', 'ipp': 'ImagePositionPatient',
+          'seg': 'ReferencedSegmentNumber',     # refused: segments are chosen with segment_numbers
+          'bogus': 'InstanceNumber'}            # not a dimension of any object
+# pointer selections for a tiled object: the first group identifies every tile, the second does not in general
+SM_PTR_SETS = [['col', 'row'], ['col', 'row'], ['x', 'y'], ['row', 'y'], ['x', 'col'], ['col', 'row', 'z'],
+               ['row', 'col', 'x'], ['y', 'x', 'z'], ['row', 'col', 'x', 'y', 'z'], ['col', 'col', 'row']]
+SM_PTR_SETS_AMBIGUOUS = [['row'], ['col'], ['z'], ['row', 'x'], ['y', 'z'], ['y', 'col']]
+
+
+def dim_tag(name):
+    from pydicom.datadict import tag_for_keyword
+    return int(tag_for_keyword(DIM_KW[name]))
+
+
+def obj_dims(o):
+    """names of the plane dimensions of a synthetic object in DimensionIndexSequence order (segment dimension
+    excluded); verified against the object actually built"""
+    return ['row', 'col', 'x', 'y', 'z'] if o['src'] == 'sm' else ['ipp']
+
+
+def _sm_axis(o, p, name):
+    """the tile coordinate a plane dimension of a tiled object depends on (sm_tiled: ImageOrientationSlide
+    (0,-1,0,-1,0,0), so X falls with the tile row and Y falls with the tile column)"""
+    b, a = plane_coords(o, p)
+    return {'row': a, 'x': a, 'col': b, 'y': b, 'z': 0}[name]
+
+
+def full_dim_prediction(o):
+    """{plane: {dimension name: index value}} for every plane that has a stored frame: the values highdicom
+    writes (ranks of the distinct positions that occur), or the re-encoded ones of a 'foreign' object (only the
+    Column/Row position - resp. ImagePositionPatient - indices are re-encoded, X/Y/Z stay as written)"""
+    frames = predicted_frames(o)
+    planes = sorted({f[0] for f in frames})
+    out = {p: {} for p in planes}
+    if o['src'] == 'ct':
+        rk = {p: i for i, p in enumerate(planes, 1)}
+        n = len(planes)
+        for p in planes:
+            out[p]['ipp'] = (n + 1 - rk[p]) if o['step'] > 0 else rk[p]
+    else:
+        for name in obj_dims(o):
+            vals = sorted({_sm_axis(o, p, name) for p in planes})
+            n = len(vals)
+            for p in planes:
+                rk = vals.index(_sm_axis(o, p, name)) + 1
+                out[p][name] = (n + 1 - rk) if name in ('x', 'y') else rk
+    if o.get('dimenc'):
+        ptab, _ = dim_prediction(o)
+        names = ['ipp'] if o['src'] == 'ct' else ['col', 'row']       # the order of plane_tags
+        for p in planes:
+            for nm, v in zip(names, ptab[p]):
+                out[p][nm] = v
+    return out
+
+
+def dim_value(o, full, p, name):
+    """the index value along dimension `name` that addresses plane p; for a plane without stored frame: the
+    value of a stored tile in the same tile row / column if there is one (the combination is then what is
+    absent), otherwise a value that occurs nowhere"""
+    if name in ('seg', 'bogus'):
+        return 1
+    if p in full:
+        return full[p][name]
+    if o['src'] == 'sm' and 1 <= p <= o['P']:
+        ax = _sm_axis(o, p, name)
+        for q in sorted(full):
+            if _sm_axis(o, q, name) == ax:
+                return full[q][name]
+        return 90 + ax
+    return 70 + p
+
+
+def ptr_names(o, r):
+    return obj_dims(o) if r['ptrs'] is None else list(r['ptrs'])
+
+
+def ptr_rows(o, r, full=None):
+    """the rows of dimension index values of a read with r['ptrs'] (r['rowfix']: one row too short / too long)"""
+    full = full_dim_prediction(o) if full is None else full
+    names = ptr_names(o, r)
+    rows = [[dim_value(o, full, p, nm) for nm in names] for p in r['planes']]
+    fix = r.get('rowfix')
+    if fix and rows:
+        i = fix[1] % len(rows)
+        rows[i] = rows[i][:-1] if fix[0] == 'short' else rows[i] + [1]
+    return rows
+
+
+def ptr_positions(dims, names):
+    """pointer -> position in the plane dimensions of the object (the model's encoding; -1 = segment dimension,
+    99 = not a dimension of the object)"""
+    return [(-1 if nm == 'seg' else dims.index(nm) if nm in dims else 99) for nm in names]
+
+
+def frame_table(c):
+    """(names of the plane dimensions, [(plane, segment or 0, stored values, {name: index value})]) of the stored
+    frames of a case: predicted for synthetic objects, read with pydicom for the shipped files"""
+    if c['kind'] == 'fixture':
+        fa = fixture_abstract(c['fixture'])
+        return fa['dims'], [(k, s, px, ix) for (k, s, px), ix in zip(fa['frames'], fa['ix'])]
+    o = c['obj']
+    full = full_dim_prediction(o)
+    return obj_dims(o), [(k, s, px, full[k]) for k, s, px in predicted_frames(o)]
+
+
+def case_rows(c, r):
+    """rows of values of a pointer read: given explicitly (shipped files) or derived from the planes"""
+    if 'rows' in r:
+        return [list(x) for x in r['rows']]
+    return ptr_rows(c['obj'], r)
+
+
+def gen_ptrs(rng, o, ambiguous=0.12):
+    """a pointer list for one read by dimension index values"""
+    if o['src'] == 'ct':
+        return rng.choice([['ipp'], ['ipp'], None, ['ipp', 'ipp']])
+    if rng.random() < 0.08:
+        return None
+    ps = list(rng.choice(SM_PTR_SETS_AMBIGUOUS if rng.random() < ambiguous else SM_PTR_SETS))
+    rng.shuffle(ps)
+    return ps
+
+
+def gen_pointers(rng, i):
+    """8-11 reads by dimension index values on ONE sparse object with explicit dimension_index_pointers: the same
+    selection of dimensions in different ORDERS (values permuted alike), other selections in between, mostly
+    without assert_missing_frames_are_empty, asking for stored and for absent positions."""
+    src = 'ct' if i % 6 == 5 else 'sm'
+    ty = ['BINARY', 'LABELMAP', 'FRACTIONAL', 'BINARY'][i % 4]
+    while True:
+        o = gen_obj(rng, src, ty=ty)
+        if o['P'] < (4 if src == 'sm' else 3):
+            continue
+        # sparse: some planes hold nothing and are not stored
+        o['omit'] = True
+        for p in range(o['P']):
+            if rng.random() < 0.35:
+                o['pix'][p] = [[0] * len(v) for v in o['pix'][p]]
+        pres = present_planes(o)
+        if 2 <= len(pres) < o['P']:
+            break
+    if i % 3 == 0:
+        o['dimenc'] = {'plane': rng.choice(['rank', 'gap', 'rev']), 'seg': 'same'}
+    o['open'] = OPEN_MODES[(i // 2) % 4]
+    o['warm'] = rng.random() < 0.3
+    main = list(rng.choice(SM_PTR_SETS[:7])) if src == 'sm' else ['ipp']
+    reads = []
+    for j in range(rng.randint(7, 9)):
+        r = gen_read(rng, o, 'dimidx')
+        r.pop('default_req', None)
+        if rng.random() < 0.75:
+            r['ptrs'] = rng.sample(main, len(main))
+        else:
+            r['ptrs'] = gen_ptrs(rng, o)
+        r['am'] = rng.random() < 0.25
+        mode = rng.choice(['present', 'present', 'hole', 'mixed'])
+        holes = [p for p in range(1, o['P'] + 1) if p not in pres]
+        if mode == 'present':
+            r['planes'] = rng.sample(pres, rng.randint(1, min(3, len(pres))))
+        elif mode == 'hole':
+            r['planes'] = [rng.choice(holes)]
+        else:
+            r['planes'] = rng.sample(pres, rng.randint(1, min(2, len(pres)))) + [rng.choice(holes)]
+            rng.shuffle(r['planes'])
+        reads.append(r)
+    for kind in rng.sample(['ptr_empty', 'ptr_seg', 'ptr_bogus', 'row_short', 'row_long'], 2):
+        r = gen_read(rng, o, 'dimidx')
+        r.pop('default_req', None)
+        r['ptrs'] = rng.sample(main, len(main))
+        bad_pointers(rng, r, kind)
+        reads.insert(rng.randint(0, len(reads)), r)
+    return {'kind': 'pointers', 'obj': o, 'reads': reads}
+
+
+def bad_pointers(rng, r, kind):
+    """violate one guard of the pointer / row arguments"""
+    r['bad'] = kind
+    ps = list(r.get('ptrs') or [])
+    if kind == 'ptr_empty':
+        r['ptrs'] = []
+    elif kind in ('ptr_seg', 'ptr_bogus'):
+        ps.insert(rng.randint(0, len(ps)), kind[4:])
+        r['ptrs'] = ps
+    else:
+        if not r['planes']:
+            r['planes'] = [1]
+        r['rowfix'] = [kind[4:], rng.randrange(8)]
+
+
 def gen_describe(rng):
     c = gen_search(rng, 'search')
     segs = c['segs']
@@ -713,7 +948,17 @@ def fixture_abstract(name):
         arr = arr[None]
     uids, frames = [], []
     by_frame = name.startswith('seg_image_sm')
+    # plane dimensions of the object (DimensionIndexSequence order, segment dimension excluded) and the index
+    # values of every frame along them
+    kw2name = {v: k for k, v in DIM_KW.items()}
+    from pydicom.datadict import keyword_for_tag
+    ptr_kw = [keyword_for_tag(int(it.DimensionIndexPointer)) for it in ds.DimensionIndexSequence]
+    dims = [kw2name.get(k, k) for k in ptr_kw if k != 'ReferencedSegmentNumber']
+    ixs = []
     for i, pf in enumerate(ds.PerFrameFunctionalGroupsSequence):
+        div = pf.FrameContentSequence[0].DimensionIndexValues
+        div = [int(div)] if isinstance(div, int) else [int(v) for v in div]
+        ixs.append({kw2name.get(k, k): v for k, v in zip(ptr_kw, div) if k != 'ReferencedSegmentNumber'})
         src = pf.DerivationImageSequence[0].SourceImageSequence[0]
         if by_frame:
             key = int(src.ReferencedFrameNumber)
@@ -735,7 +980,7 @@ def fixture_abstract(name):
             uids.append(u)
     return {'ty': ty, 'segs': segs, 'bits': int(ds.BitsStored), 'maxfrac': int(ds.get('MaximumFractionalValue', 1)),
             'npix': int(ds.Rows) * int(ds.Columns), 'rows': int(ds.Rows), 'cols': int(ds.Columns),
-            'bg': bg or 0, 'frames': frames, 'uids': uids, 'by_frame': by_frame,
+            'bg': bg or 0, 'frames': frames, 'uids': uids, 'by_frame': by_frame, 'dims': dims, 'ix': ixs,
             'src_uid': (ds.ReferencedSeriesSequence[0].ReferencedInstanceSequence[0].ReferencedSOPInstanceUID)}
 
 
@@ -753,6 +998,50 @@ def gen_fixture_case(rng, name):
         reads.append({'entry': entry, 'planes': planes, 'am': rng.random() < 0.5, 'req': req, 'combine': combine,
                       'relabel': relabel, 'skip': skip, 'rescale': rescale, 'dtype': dt})
     return {'kind': 'fixture', 'fixture': name, 'reads': reads}
+
+
+def gen_fixture_pointers(rng, name):
+    """reads by dimension index values of a shipped sparse tiled segmentation (20 of 25 tile positions stored)
+    with explicit pointers: (Column, Row) and (Row, Column) - and other selections - one after the other on ONE
+    object, asking for stored positions, for absent ones and for the mirror images of both"""
+    fa = fixture_abstract(name)
+    stored = sorted({(ix['col'], ix['row']) for ix in fa['ix']})
+    by_cr = {(ix['col'], ix['row']): ix for ix in fa['ix']}
+    grid = [(a, b) for a in range(1, 6) for b in range(1, 6)]
+    absent = [p for p in grid if p not in by_cr]
+    lopsided = [p for p in grid if (p in by_cr) != ((p[1], p[0]) in by_cr)]
+    main = list(rng.choice([['col', 'row'], ['col', 'row'], ['x', 'y'], ['row', 'y', 'z']]))
+    reads = []
+    for j in range(7):
+        names = rng.sample(main, len(main)) if j < 5 else rng.choice([['row'], ['x', 'col'], None, ['col', 'row', 'x']])
+        pool = rng.choice([stored, stored, absent, lopsided or stored, lopsided or absent])
+        pos = rng.sample(pool, min(len(pool), rng.randint(1, 3)))
+        if rng.random() < 0.3:
+            pos = pos + [rng.choice(grid)]
+        rows = []
+        for (cv, rv) in pos:
+            ix = by_cr.get((cv, rv))
+            if ix is None:
+                # an absent position: along every dimension the index value of the stored tiles of the same
+                # column resp. row (every dimension of these files is a function of one of the two)
+                ix = {}
+                for nm in fa['dims']:
+                    for axis, v in (('col', cv), ('row', rv)):
+                        vals = {x[nm] for x in fa['ix'] if x[axis] == v}
+                        if len(vals) == 1 and all(len({y[nm] for y in fa['ix'] if y[axis] == x[axis]}) == 1
+                                                  for x in fa['ix']):
+                            ix[nm] = vals.pop()
+                            break
+                    else:
+                        ix[nm] = 90
+                ix['col'], ix['row'] = cv, rv
+            rows.append([ix[nm] for nm in (names if names is not None else fa['dims'])])
+        segs = fa['segs']
+        req = rng.sample(segs, rng.randint(1, min(3, len(segs))))
+        reads.append({'entry': 'dimidx', 'ptrs': names, 'rows': rows, 'planes': [], 'am': rng.random() < 0.25,
+                      'req': req, 'combine': rng.random() < 0.4, 'relabel': rng.random() < 0.5, 'skip': False,
+                      'rescale': True, 'dtype': rng.choice([None, 'uint8', 'uint16'])})
+    return {'kind': 'fixture', 'fixture': name, 'lazy': rng.random() < 0.5, 'reads': reads}
 
 
 # ----------------------------------------------------------------------------
@@ -911,6 +1200,25 @@ def _dim_translation(seg, o):
     return want, table
 
 
+def actual_dim_table(seg, o):
+    """(names of the plane dimensions in DimensionIndexSequence order, {plane: {name: index value}}) as the
+    object carries them"""
+    from pydicom.datadict import keyword_for_tag
+    kw2name = {v: k for k, v in DIM_KW.items()}
+    ptr_kw = [keyword_for_tag(int(it.DimensionIndexPointer)) for it in seg.DimensionIndexSequence]
+    dims = [kw2name.get(k, k) for k in ptr_kw if k != 'ReferencedSegmentNumber']
+    table = {}
+    for pf in seg.PerFrameFunctionalGroupsSequence:
+        src = pf.DerivationImageSequence[0].SourceImageSequence[0]
+        key = o['_uids'].index(src.ReferencedSOPInstanceUID) + 1 if o['src'] == 'ct' else int(src.ReferencedFrameNumber)
+        div = pf.FrameContentSequence[0].DimensionIndexValues
+        div = [int(div)] if isinstance(div, int) else [int(v) for v in div]
+        ix = {kw2name.get(k, k): v for k, v in zip(ptr_kw, div) if k != 'ReferencedSegmentNumber'}
+        if table.setdefault(key, ix) != ix:
+            return dims, {'inconsistent plane': key}
+    return dims, table
+
+
 def do_read(seg, o, sources, r, dimtab):
     import numpy as np
     import highdicom as hd
@@ -926,6 +1234,11 @@ def do_read(seg, o, sources, r, dimtab):
     if e == 'frame':
         return seg.get_pixels_by_source_frame(sources[0].SOPInstanceUID, list(r['planes']),
                                               assert_missing_frames_are_empty=r['am'], **kw)
+    if e == 'dimidx' and 'ptrs' in r:
+        rows = ptr_rows(o, r)
+        return seg.get_pixels_by_dimension_index_values(
+            rows, dimension_index_pointers=None if r['ptrs'] is None else [dim_tag(nm) for nm in r['ptrs']],
+            assert_missing_frames_are_empty=r['am'], **kw)
     if e == 'dimidx':
         want, table = dimtab
         rows = dim_rows(o, r['planes'], table, len(want))
@@ -1014,7 +1327,8 @@ def run_impl(c):
     if k == 'fixture':
         import highdicom as hd
         fa = fixture_abstract(c['fixture'])
-        seg = hd.seg.segread(os.path.join(common.REPO, 'data', 'test_files', c['fixture']))
+        seg = hd.seg.segread(os.path.join(common.REPO, 'data', 'test_files', c['fixture']),
+                             lazy_frame_retrieval=bool(c.get('lazy')))
         outs = []
         for r in c['reads']:
             def f(r=r):
@@ -1022,7 +1336,13 @@ def run_impl(c):
                 kw = dict(segment_numbers=list(r['req']), combine_segments=r['combine'], relabel=r['relabel'],
                           rescale_fractional=r['rescale'], skip_overlap_checks=r['skip'],
                           dtype=None if r['dtype'] is None else np.dtype(r['dtype']),
-                          assert_missing_frames_are_empty=r['am'], ignore_spatial_locations=True)
+                          assert_missing_frames_are_empty=r['am'])
+                if r['entry'] == 'dimidx':
+                    return seg.get_pixels_by_dimension_index_values(
+                        case_rows(c, r),
+                        dimension_index_pointers=None if r['ptrs'] is None else [dim_tag(nm) for nm in r['ptrs']],
+                        **kw)
+                kw['ignore_spatial_locations'] = True
                 if fa['by_frame']:
                     return seg.get_pixels_by_source_frame(fa['src_uid'], list(r['planes']), **kw)
                 return seg.get_pixels_by_source_instance([fa['uids'][p - 1] for p in r['planes']], **kw)
@@ -1049,6 +1369,14 @@ def run_impl(c):
         if dimtab[1] != ptab or got_s != want_s:
             return ['stored-object-differs-from-prediction', sorted(dimtab[1].items()), sorted(ptab.items()),
                     sorted(got_s.items()), sorted(want_s.items())]
+    if any('ptrs' in r for r in c['reads']):
+        # the index values along ALL plane dimensions that the model and the oracle are given are the ones the
+        # object carries
+        got_full = actual_dim_table(seg, o2)
+        want_full = (obj_dims(o), full_dim_prediction(o))
+        if got_full != want_full:
+            return ['stored-object-differs-from-prediction', got_full[0], sorted(got_full[1].items()),
+                    want_full[0], sorted(want_full[1].items())]
     if o.get('warm'):
         seg.pixel_array             # the caller looks at the decoded pixel array: it is cached from now on
     outs = []
@@ -1225,6 +1553,28 @@ def zll_(ll):
     return '[' + '; '.join(zl(x) for x in ll) + ']'
 
 
+def dfs_term(c):
+    """the FrameLUT rows with their index values along all plane dimensions (model: list dframe)"""
+    dims, tab = frame_table(c)
+    return '[' + '; '.join(f'mkDf (mkFrame {zlit(k)} {zlit(s_)} {zl(px)}) {zl([ix[nm] for nm in dims])}'
+                           for k, s_, px, ix in tab) + ']'
+
+
+def dim_read_term(c, r):
+    """model term of a read by dimension index values with explicit pointers (uses `st` and `dfs`)"""
+    dims, _ = frame_table(c)
+    ptrs = 'None' if r['ptrs'] is None else f"(Some {zl(ptr_positions(dims, r['ptrs']))})"
+    dt = 'None' if r['dtype'] is None else f"(Some {DT_COQ[r['dtype']]})"
+    return (f"run_read_dim {_bool(r['am'])} st {len(dims)} dfs {ptrs} {zll_(case_rows(c, r))} {zl(r['req'])} "
+            f"(mkOpts {_bool(r['combine'])} {_bool(r['relabel'])} {_bool(r['skip'])} {_bool(r['rescale'])} {dt})")
+
+
+def with_dfs(c, body):
+    if any('ptrs' in r for r in c['reads']):
+        return 'let dfs := ' + dfs_term(c) + ' in ' + body
+    return body
+
+
 def coq_term(c):
     k = c['kind']
     if k == 'ctor':
@@ -1266,7 +1616,8 @@ def coq_term(c):
         fa = fixture_abstract(c['fixture'])
         known = list(range(1, len(fa['uids']) + 1))
         st = stored_term(fa['ty'], fa['segs'], fa['bits'], fa['maxfrac'], fa['npix'], fa['bg'], fa['frames'], known)
-        return '(let st := ' + st + ' in VL [' + '; '.join(read_term(r) for r in c['reads']) + '])'
+        return ('(let st := ' + st + ' in ' + with_dfs(c, 'VL [' + '; '.join(
+            (dim_read_term(c, r) if 'ptrs' in r else read_term(r)) for r in c['reads']) + ']') + ')')
     o = c['obj']
     bits = 8 if o['ty'] == 'FRACTIONAL' else 1 if o['ty'] == 'BINARY' else (8 if max(o['segs']) < 256 else 16)
     known = list(range(1, o['P'] + 1)) if o['src'] == 'ct' else []
@@ -1281,15 +1632,19 @@ def coq_term(c):
         terms = []
         for r in c['reads']:
             rr = r
+            if 'ptrs' in r:
+                terms.append(dim_read_term(c, r))
+                continue
             if r['entry'] == 'dimidx':
                 rr = dict(r, planes=[dim_code(row) for row in dim_rows(o, r['planes'], ptab, len(plane_tags(o)))])
             terms.append(read_term(rr, tiled_volume=tiled, ix=True))
-        return '(let st := ' + st + ' in let xs := [' + xs + '] in VL [' + '; '.join(terms) + '])'
+        return ('(let st := ' + st + ' in let xs := [' + xs + '] in ' +
+                with_dfs(c, 'VL [' + '; '.join(terms) + ']') + ')')
     st = stored_term(o['ty'], o['segs'], bits, o['maxfrac'], o['rows'] * o['cols'], 0, frames, known)
-    terms = [read_term(r, tiled_volume=tiled) for r in c['reads']]
+    terms = [(dim_read_term(c, r) if 'ptrs' in r else read_term(r, tiled_volume=tiled)) for r in c['reads']]
     if c.get('observe_state'):
         terms.append('VL [run_stored_state st; VB true]')
-    return '(let st := ' + st + ' in VL [' + '; '.join(terms) + '])'
+    return '(let st := ' + st + ' in ' + with_dfs(c, 'VL [' + '; '.join(terms) + ']') + ')'
 
 
 # ----------------------------------------------------------------------------
@@ -1327,6 +1682,7 @@ def check_read(r, ty, segs, maxfrac, npix, mask, known_keys, max_ref, present, l
             must.append('ValueError')
         if e == 'volume' and r.get('_strict_volume') and any(kk not in present for kk in keys):
             must.append('RuntimeError')
+    must += r.get('_extra_must', [])
     dt = r['dtype']
     if dt == 'complex64':
         must.append('ValueError')
@@ -1377,6 +1733,44 @@ def check_read(r, ty, segs, maxfrac, npix, mask, known_keys, max_ref, present, l
         return (f'{label}wrong pixels (req {req}, planes {keys}, combine {combine}, relabel {relabel}, '
                 f'dtype {dt}): got {str(out[1])[:300]} expected {str(exp)[:300]}')
     return None
+
+
+def resolve_pointer_read(c, r, ty, npix, mask):
+    """What a read by dimension index values with explicit pointers addresses, worked out from the index values
+    the stored frames carry (frame_table: predicted and verified for synthetic objects, read with pydicom for the
+    shipped files).  Returns (keys: one tuple of values per requested row, refusals that are mandatory, set of
+    value tuples that address a stored frame, mask(key, segment))."""
+    dims, tab = frame_table(c)
+    names = list(dims) if r['ptrs'] is None else list(r['ptrs'])
+    must = []
+    if r['ptrs'] is not None:
+        if not names:
+            must.append('ValueError')
+        if 'seg' in names:
+            must.append('ValueError')            # segments are selected with segment_numbers
+        if any(nm != 'seg' and nm not in dims for nm in names):
+            must.append('KeyError')              # not a dimension of this object
+    rows = case_rows(c, r)
+    if any(len(row) != len(names) for row in rows):
+        must.append('ValueError')
+    if must:
+        return [tuple(row) for row in rows], must, set(), mask
+    planes_of = {}
+    slots = {}
+    for k, s_, px, ix in tab:
+        pr = tuple(ix[nm] for nm in names)
+        planes_of.setdefault(pr, set()).add(k)
+        slot = pr if ty == 'LABELMAP' else (pr, s_)
+        slots[slot] = slots.get(slot, 0) + 1
+    if any(n > 1 for n in slots.values()):
+        must.append('RuntimeError')              # the chosen dimensions do not identify the frames uniquely
+
+    def mask_rows(key, s_):
+        vals = [0] * npix
+        for k in sorted(planes_of.get(key, ())):
+            vals = [max(a, b) for a, b in zip(vals, mask(k, s_))]
+        return vals
+    return [tuple(row) for row in rows], must, set(planes_of), mask_rows
 
 
 def oracle_describe(c, out):
@@ -1485,7 +1879,18 @@ def oracle(c, out):
                       for q in c['reads'][:i]]
             hist_i = hist + f' after {before}'
         rr = dict(r, _out=res, _strict_volume=(k != 'fixture' and c['obj']['src'] == 'ct'))
-        m = check_read(rr, ty, segs, maxfrac, npix, mask, known, max_ref, present, label=f'read {i} ({r["entry"]}): ')
+        if 'ptrs' in r:
+            keys_r, must_r, present_r, mask_r = resolve_pointer_read(c, r, ty, npix, mask)
+            rr.update(planes=keys_r, _extra_must=must_r)
+            m = check_read(rr, ty, segs, maxfrac, npix, mask_r, known, max_ref, present_r,
+                           label=f'read {i} (dimidx, dimension_index_pointers {r["ptrs"]}, values '
+                                 f'{case_rows(c, r)}, assert_missing_frames_are_empty={r["am"]}): ')
+            if m:
+                m += (' [pointers of the earlier reads by dimension index values on this object: '
+                      f'{[q["ptrs"] for q in c["reads"][:i] if "ptrs" in q]}]')
+        else:
+            m = check_read(rr, ty, segs, maxfrac, npix, mask, known, max_ref, present,
+                           label=f'read {i} ({r["entry"]}): ')
         if m:
             if k == 'foreign':
                 m += f" [DimensionIndexValues re-encoded: {c['obj']['dimenc']}]"
@@ -1559,6 +1964,15 @@ def shrink(c):
         if len(r['req']) > 1 and not r.get('default_req'):
             for i in range(len(r['req'])):
                 yield dict(c, reads=[dict(r, req=r['req'][:i] + r['req'][i + 1:])])
+    if 'reads' in c and 2 <= len(c['reads']) <= 3:
+        # a failure that needs a history: make the individual reads smaller
+        for j, r in enumerate(c['reads']):
+            for key in ('planes', 'rows'):
+                if len(r.get(key, [])) > 1 and r['entry'] in ('instance', 'frame', 'dimidx'):
+                    for i in range(len(r[key])):
+                        rs = list(c['reads'])
+                        rs[j] = dict(r, **{key: r[key][:i] + r[key][i + 1:]})
+                        yield dict(c, reads=rs)
 
 
 def extra_obligations(work):
